@@ -12,6 +12,7 @@ import (
 	"fmt"
 	"io"
 	"net/http"
+	"regexp"
 	"sort"
 	"strconv"
 	"strings"
@@ -44,6 +45,8 @@ type fedRequest struct {
 	client    int
 	cacheCtl  string
 	cancelled bool
+	// partial: positions (type|id|field) an "entity_field_error" fault failed in this answer
+	partial []string
 }
 
 type fedEnv struct {
@@ -175,6 +178,11 @@ func (e *fedEnv) RoundTrip(req *http.Request) (*http.Response, error) {
 			q.fault = "" // not applicable to this request (merged multi-entity request): no fault injected
 		}
 	}
+	if q.fault == "entity_field_error" {
+		// per-entity failure: one nullable field of one entity is null and the subgraph reports an
+		// error with the path [_entities, i, field]; everything else in the answer is intact
+		answer = e.entityFieldError(q, answer)
+	}
 	if e.corruptFn != nil {
 		answer = e.corruptFn(q, answer)
 	}
@@ -184,6 +192,77 @@ func (e *fedEnv) RoundTrip(req *http.Request) (*http.Response, error) {
 	}
 	e.r.Hist("<- s%d #%d %s", sub, q.idx, short(answer))
 	return resp(200, answer, h)
+}
+
+// entityFieldError rewrites a correct _entities answer into one with a per-entity failure. Only
+// keys that are the plain name of a nullable field of the entity's type are candidates (the
+// subgraph's own null propagation would turn a failed non-null field into a null entity). When
+// the answer has no such key no fault is injected.
+func (e *fedEnv) entityFieldError(q *fedRequest, answer string) string {
+	dec := json.NewDecoder(strings.NewReader(answer))
+	dec.UseNumber()
+	var v map[string]any
+	if dec.Decode(&v) != nil || v["errors"] != nil {
+		q.fault = ""
+		return answer
+	}
+	d, _ := v["data"].(map[string]any)
+	l, _ := d["_entities"].([]any)
+	type cand struct {
+		i    int
+		key  string
+		pos  string
+		item map[string]any
+	}
+	var cands []cand
+	for i, it := range l {
+		m, ok := it.(map[string]any)
+		if !ok {
+			continue
+		}
+		tn, _ := m["__typename"].(string)
+		var t *fedType
+		for _, ft := range e.spec.Types {
+			if ft.Name == tn {
+				t = ft
+			}
+		}
+		if t == nil || i >= len(q.reps) {
+			continue
+		}
+		var rm map[string]any
+		if json.Unmarshal([]byte(q.reps[i]), &rm) != nil {
+			continue
+		}
+		for _, k := range sortedKeysAny(m) {
+			if k == "__typename" || k == "id" || m[k] == nil {
+				continue
+			}
+			if regexp.MustCompile(`:\s*` + k + `\b`).MatchString(q.query) {
+				continue // the field is selected under an alias as well: a failing field fails all of them
+			}
+			for _, f := range t.Fields {
+				if f.Name == k && !f.Type.NonNull {
+					cands = append(cands, cand{i, k, tn + "|" + fmt.Sprint(rm["id"]) + "|" + k, m})
+				}
+			}
+		}
+	}
+	if len(cands) == 0 || len(l) != len(q.reps) {
+		q.fault = ""
+		return answer
+	}
+	c := cands[e.r.F.Intn(len(cands))]
+	c.item[c.key] = nil
+	v["errors"] = []any{map[string]any{"message": "field failed", "path": []any{"_entities", c.i, c.key}}}
+	q.partial = append(q.partial, c.pos)
+	b, err := json.Marshal(v)
+	if err != nil {
+		q.fault = ""
+		q.partial = nil
+		return answer
+	}
+	return string(b)
 }
 
 // serve executes a subgraph request on the semantic subgraph server and validates it.
